@@ -17,14 +17,22 @@ PROPS = {
         "assumptions": ["VertexNeighbors is called with level < cell level (C++ contract)"],
     },
     "C11": {
-        "generators": [("c11", 6000, 200000)],
-        "modules": ["S2.CellID", "S2.CellUnion"],
+        "generators": [("c11", 6000, 200000), ("c11b", 600, 20000)],
+        "modules": ["S2.CellID", "S2.CellUnion", "S2.CellIndex", "S2.Intersect"],
         "rule": "adversarial multisets of valid cell ids (duplicates, complete / incomplete sibling groups, cascades over several "
-                "levels, nested cells, whole faces, curve neighbours), pairs derived from one another; non-trivial = union has at "
-                "least 2 cells; distinct = distinct (op, arguments)",
+                "levels, nested cells, whole faces, curve neighbours), pairs derived from one another; c11b: CellIndex (nested cells with equal / different "
+                "labels, duplicates, sibling groups, faces, face seams, first / last leaf, empty index; range, non-empty-range, "
+                "seek and contents sweeps) and s2intersect.Find on 2-4 related unions, judged against leaf-set semantics; "
+                "non-trivial = union has at least 2 cells; distinct = distinct (op, arguments)",
         "nontrivial": lambda l: "," in l.split(" = ")[0],
         "trusted_base": [],
-        "assumptions": ["binary operations are given normalized unions, as the library documents"],
+        "assumptions": ["all ids are valid cells; ContainsCellID/Contains need a normalized receiver (documented; shown necessary), "
+                        "IntersectsCellID/Intersects/Intersection/Difference/IntersectionWithCellID/LeafCellsCovered only a valid "
+                        "(sorted, disjoint) one; Denormalize: minLevel <= 30, 1 <= levelMod <= 3; CellUnionFromRange: odd leaf positions "
+                        "begin <= end <= End(MaxLevel); CellIndex labels >= 0"],
+        "partial": ["(e) only: CellIndex_contents_correct and Find_correct are stated as `def ... : Prop` and NOT proved "
+                    "(cellIndex_*_partial: ranges sorted, tree = added pairs, well-formed parents, chain fuel); they are judged on every "
+                    "run by Oracle.C11b (judgeRanges / judgeSweep / judgeFind) on the implementation's output. (a)-(d) are full."],
     },
     "C06": {
     "generators": [("c06a", 4000, 120000)],   # (generator, quick n, thorough n)
@@ -79,7 +87,6 @@ PROPS = {
         # harness generator, quick n, thorough n
         "generators": [("c13", 300, 3000)],
         "modules": ["S2.History"],
-        "translators": [],
         "rule": "operation histories executed on the real code in a child process (hang => HANG, panic => PANIC): the 12 shortest "
                 "expected failures first; ALL histories of length <= 4 (thorough 5) over {add loop, add empty, build, reset, query}, "
                 "over {invert, contains, cell} for a 64- and an 8-vertex loop, over {invert, contains} for empty/full/normal polygons, "
@@ -101,7 +108,7 @@ PROPS = {
         "generators": [("c14", 60, 600)],
         "harness_build_flags": ["-race"],
         "modules": ["S2.Protocol", "S2.Generated.ProtocolIR"],
-        "translators": [("translator_c14", ["-repo", "$VERIF_REPO", "-out", "lean/S2/Generated/ProtocolIR.lean"])],
+        "translators": ["translator_c14"],
         "regenerated_obligations": ["S2Proofs.C14.generated_wellFormed", "S2Proofs.C14.isFresh_is_one_atomic_load",
                                     "S2Proofs.C14.mutators_store_status_last"],
         "rule": "forced schedules through the four verif schedule points of maybeApplyUpdates under the Go race detector, each in a child "
@@ -118,5 +125,68 @@ PROPS = {
                          "writes nothing readers read, is checked by the race detector on the forced schedules, not proved"],
         "assumptions": ["no goroutine calls Add/Remove/Reset concurrently with queries (the library requires external synchronisation)"],
         "partial": ["label: partial (protocol proved for all N and interleavings; footprint of the Go code by race detector)"],
+    },
+    "C02": {
+        "generators": [("f64", 3000, 60000), ("c02", 6000, 160000)],
+        "modules": ["S2.F64", "S2.STUV", "S2.Exact", "S2.Pred"],
+        "rule": "unit-length triples / (x,a,b) / (x,y,r) built to sit on the decision boundaries: c = rn(s*a+t*b) +-2 ulps, "
+                "exactly coplanar points (coordinate planes, plane x==y, great circle through a and b, antipodes), identical / "
+                "1-2 ulp apart / antipodal pairs, tangent-plane lattices (1, u*2^-k, v*2^-k) for k in 30..1074 (collinear and "
+                "sub-normal), mirror-image and equal-direction pairs for distances, chord limits at the computed distance +-3 ulps, "
+                "0, 4, 45 degrees, Inf, negative; arbitrary finite (non-unit, huge, sub-normal) vectors for the exact stages only; "
+                "4- and 5-tuples from one pool; every line carries `st:<stage>` naming the stage that decided; "
+                "non-trivial = not decided by the first float triage (stage other than tri / cos) or an exact-stage / tuple / "
+                "OrderedCCW op; distinct = distinct (op, arguments)",
+        "nontrivial": lambda l: (not l.startswith("f64")) and (not l.startswith("c02const")) and
+                                (" st:tri" not in l) and (" st:cos" not in l),
+        "trusted_base": ["NOT proved (partial): sufficiency of the float error constants maxDeterminantError, detErrorMultiplier, "
+                         "the cosDistance / sin2Distance error formulas and 3.046875*dblEpsilon; they are hypotheses of the "
+                         "`..._given_error_bound` theorems and are searched on every run (each float stage: non-zero => equals exact sign)",
+                         "NOT proved (stated as `sos_global : Prop`): one perturbation per point serves all triples of a finite set; "
+                         "checked on every generated 4-/5-tuple against a global rank-based perturbed-determinant reference "
+                         "and the Grassmann-Pluecker relations",
+                         "side condition `toInt (-x) = -toInt x` of the `..._given_error_bound` theorems (true for all finite floats) is a "
+                         "decidable hypothesis, not a bit-level lemma",
+                         "big.Float at 2^26 bits is exact on float64 inputs (modelled by integer arithmetic at scale 2^1074)"],
+        "assumptions": ["points are finite float64 vectors (no NaN / Inf: the real code panics in big.Float); float stages are judged only "
+                        "on unit-length points (|norm2 - 1| <= 5 eps, the C++ IsUnitLength contract; Go's IsUnit tolerates 5e-14)",
+                        "SignDotProd: |a|^2 <= 2 and |b|^2 <= 2; CompareDistance: r is a valid chord angle (0..4, -1 or +Inf), not NaN"],
+    },
+    "C19": {
+        # n = cases per run (the generator adds n/20 math.Remainder self-checks); measured 900-1000 oracle lines/s on 16 cores
+        "generators": [("c19", 24000, 450000)],
+        "modules": ["S2.F64", "S2.F64Extra", "S2.Interval"],
+        "rule": "pairs of r1 / s1 intervals, r2 rectangles and lat-lng rectangles drawn from {empty (canonical and non-canonical), full, "
+                "singleton, inverted, ordinary} with endpoints from {+-pi, +-pi/2, 0, -0, 0..2 ulps around those, denormal / tiny, "
+                "multiples of pi/4, uniform}; the second operand is independent or derived from the first (equal, complement, swapped "
+                "endpoints, touching / nested / overlapping within 2 ulps at an endpoint); margins from {0, denormal, around dblEpsilon, "
+                "the critical margin that just closes the circle or just empties the interval +-4 ulps, pi/2, pi, 2pi, uniform, 30% negative}; "
+                "probe points = every endpoint of both operands and both float neighbours, +-pi, +-pi/2, +-0, next floats inside +-pi, random "
+                "(lat-lng probes also slightly outside +-pi/2, which the API documents as ignored); every line compares every public method "
+                "bit-exactly with the soft-float model and judges the property clauses on the implementation's own output; "
+                "non-trivial = any op other than the f64rem soft-float self-validation; distinct = distinct (op, arguments)",
+        "nontrivial": lambda l: not l.startswith("f64rem"),
+        "trusted_base": [
+            "carrier laws assumed by the theorems (S2Proofs.IvlLaws / IvlArithLaws: float == is equality of a linear order, -pi < pi, "
+            "|a| <= b iff -b <= a <= b, a (+) m >= a and a (-) m <= a for m >= 0 and conversely for m <= 0, Remainder(x, 2pi) in [-pi, pi]); "
+            "satisfiable (instances for Int), true of float64 without NaN with +0/-0 identified, but not proved for the soft-float itself",
+            "completeness directions of ContainsInterval / InteriorContainsInterval / InteriorIntersects are proved for a densely ordered "
+            "carrier (intervals denote arcs of the real circle); on the float grid alone they fail for 1-ulp gaps (documented in C19.lean)",
+            "s1.Interval.Expanded keeps-every-point is proved only for exact arithmetic (s1_expanded_contains_exact_partial); for float64 it is "
+            "FALSE (two theorems with concrete counterexamples) and is judged by the oracle on every generated case",
+            "export hook s2.VerifRectExpanded (s2/verif_export_c19.go, build tag verif) exposes the unexported Rect.expanded",
+            "caps (s2.Cap, s1.ChordAngle) are not modelled in this package",
+        ],
+        "assumptions": [
+            "s1 intervals satisfy IsValid and circle points lie in [-pi, pi] (documented domain); lat-lng rectangles satisfy IsValid",
+            "r2.Rect.Contains / InteriorContains are judged for valid arguments (x empty iff y empty)",
+            "ClampPoint / Project are called on non-empty intervals only (documented)",
+            "no NaN and no infinities among the inputs",
+        ],
+        "level_text": "proof (Lean 4): 68 theorems over an abstract linearly ordered carrier for r1.Interval, s1.Interval, r2.Rect and the "
+                      "lat-lng s2.Rect, all inputs incl. empty / full / singleton / inverted / endpoints at +-pi; the model is the same "
+                      "generic definition that runs bit-exactly on the soft-float against the Go code",
+        "level_note": "partial: s1.Expanded (and Rect.expanded through it) keeps-every-point is false for the float code (findings: "
+                      "2*dblEpsilon slack too small; Length() = -1 for the non-empty interval [pi, nextafter(-pi,0)]); caps not covered",
     },
 }
